@@ -1,8 +1,9 @@
 // C06 harness: the real IonizationStateCalculator / TemperatureCalculator functions on inputs
 // given as bit patterns (16 hex digits per double), one request per line, one reply per line.
 // The two .cpp files under test are compiled INTO this translation unit so that they get this
-// harness' flags (-fno-builtin -ffp-contract=off: pow/exp/log/sqrt are real libm calls);
-// everything else (rates, cross sections, line cooling) comes from libSharedEngine.a.
+// harness' flags (-fno-builtin -ffp-contract=off: pow/exp/log/sqrt are real libm calls).
+// The oracle classes (rates, cross sections, line cooling) are compiled in the same way, so the harness
+// needs no libSharedEngine.a (a git worktree of the repo cannot build it: CMake wants .git/HEAD).
 //
 //   H aH jH nH                         -> H r             compute_ionization_state_hydrogen
 //   E aH aHe jH jHe nH AHe T           -> E h0 he0 | E ABORT   compute_ionization_states_hydrogen_helium
@@ -35,8 +36,10 @@
 #include "IonizationStateCalculator.cpp"
 #include "TemperatureCalculator.cpp"
 
-#include "VernerCrossSections.hpp"
-#include "VernerRecombinationRates.hpp"
+#include "ChargeTransferRates.cpp"
+#include "LineCoolingData.cpp"
+#include "VernerCrossSections.cpp"
+#include "VernerRecombinationRates.cpp"
 
 static double b2d(uint64_t b) { double d; std::memcpy(&d, &b, 8); return d; }
 static uint64_t d2b(double d) { uint64_t b; std::memcpy(&b, &d, 8); return b; }
